@@ -66,6 +66,17 @@ type c12Query struct {
 type c12Case struct {
 	Stores  []c12Store `json:"stores"`
 	Queries []c12Query `json:"queries"`
+	Bulk    []c12Bulk  `json:"bulk,omitempty"`
+}
+
+// a long stream: sequences 0..N-1 of one emitter, every Hole-th one missing (0 = none). Streams of a busy emitter hold
+// thousands of VAAs; scans walk them (and whatever follows them in key order) with the store's iterator.
+type c12Bulk struct {
+	EC   int `json:"ec"`
+	Addr int `json:"addr"`
+	TC   int `json:"tc"`
+	N    int `json:"n"`
+	Hole int `json:"hole"`
 }
 
 func (s c12Store) id() vaa.VAAID {
@@ -146,6 +157,36 @@ func runC12(c c12Case) (*vh.Violation, vh.Outcome) {
 		model[idStr(s.id())] = b
 		ids[idStr(s.id())] = s.id()
 	}
+	bulk := map[string]bool{}
+	for _, bk := range c.Bulk {
+		for q := 0; q < bk.N; q++ {
+			if bk.Hole > 0 && q%bk.Hole == bk.Hole-1 {
+				continue
+			}
+			id := vaa.VAAID{EmitterChain: vaa.ChainID(c12Chains[bk.EC%len(c12Chains)]), EmitterAddress: c12Addr(bk.Addr), TargetChain: vaa.ChainID(c12Chains[bk.TC%len(c12Chains)]), Sequence: uint64(q)}
+			if _, had := model[idStr(id)]; had {
+				continue
+			}
+			v := &vaa.VAA{Version: 1, GuardianSetIndex: 1, Timestamp: time.Unix(int64(2000+q), 0), Nonce: uint32(q), Sequence: id.Sequence, ConsistencyLevel: 1,
+				EmitterChain: id.EmitterChain, TargetChain: id.TargetChain, EmitterAddress: id.EmitterAddress, Payload: vh.Expand(uint64(q), 1+q%40)}
+			v.AddSignature(vh.Key(0), 0)
+			b, _ := v.Marshal()
+			if err := d.StoreSignedVAA(v); err != nil {
+				return vh.V("C12/store-failed", "%v", err), out
+			}
+			model[idStr(id)] = b
+			ids[idStr(id)] = id
+			bulk[idStr(id)] = q%16 != 0
+		}
+		if bk.N > 100 {
+			out.Labels = append(out.Labels, "stream-longer-than-100")
+		}
+	}
+	defer func() {
+		for k := range bulk {
+			_ = d.VerifDelete(ids[k])
+		}
+	}()
 	// streams present, and non-triviality: two streams whose target or emitter chain renderings are prefix related
 	streams := map[string]vaa.VAAID{}
 	for _, id := range ids {
@@ -190,6 +231,9 @@ func runC12(c c12Case) (*vh.Violation, vh.Outcome) {
 	sort.Strings(keys)
 	for _, k := range keys {
 		id := ids[k]
+		if bulk[k] {
+			continue // of a long stream every 16th entry is looked up
+		}
 		if v := lookup(id); v != nil {
 			return v, out
 		}
@@ -371,7 +415,15 @@ func genC12(t *rapid.T) c12Case {
 			TC:   rapid.OneOf(rapid.SampledFrom(homeTC), rapid.IntRange(0, len(c12Chains)-1)).Draw(t, "tc"),
 			Seqs: rapid.SliceOfN(rapid.IntRange(0, len(c12Seqs)-1), 0, 22).Draw(t, "seqs")}
 	})
-	return c12Case{Stores: rapid.SliceOfN(st, 1, 25).Draw(t, "stores"), Queries: rapid.SliceOfN(q, 0, 4).Draw(t, "queries")}
+	c := c12Case{Stores: rapid.SliceOfN(st, 1, 25).Draw(t, "stores"), Queries: rapid.SliceOfN(q, 0, 4).Draw(t, "queries")}
+	if rapid.IntRange(0, 5).Draw(t, "bulk") == 0 {
+		bk := rapid.Custom(func(t *rapid.T) c12Bulk {
+			return c12Bulk{EC: rapid.SampledFrom(homeEC).Draw(t, "bec"), Addr: rapid.IntRange(0, 2).Draw(t, "baddr"), TC: rapid.SampledFrom(homeTC).Draw(t, "btc"),
+				N: rapid.SampledFrom([]int{5, 99, 100, 101, 102, 150, 201, 260}).Draw(t, "bn"), Hole: rapid.SampledFrom([]int{0, 0, 7, 50}).Draw(t, "bhole")}
+		})
+		c.Bulk = rapid.SliceOfN(bk, 1, 2).Draw(t, "bulks")
+	}
+	return c
 }
 
 func TestVerif_C12_Store(t *testing.T) {
